@@ -4,5 +4,7 @@ CONSTANTS
   Horizons = {20000, 31000}
   ChangeTo <- ChangeQuick
   MaxCh = 1
+  TieBudget = 3
+  ChangeBy = 1000
 INVARIANTS TypeOK StampIsNow StateIsCurrent NoTimeLost Monotone Paired ImuRate MagRate ImuPeriodExact MagPeriodExact NeverFaster Counts LoopPeriod
 CHECK_DEADLOCK FALSE
